@@ -380,6 +380,9 @@ pub struct Interface {
 pub struct Contract {
     /// concrete instantiation of each generic parameter `T0`, `T1`, ..
     pub generics: Vec<Ty>,
+    /// names of the generic parameters (empty = `T0`, `T1`, ..)
+    #[serde(default)]
+    pub generic_names: Vec<String>,
     /// extra where predicates relating two parameters: (i, j) renders `Ti: Rel<Tj>`
     pub rel_bounds: Vec<(usize, usize)>,
     pub error: ErrTy,
